@@ -1117,7 +1117,7 @@ def stream_programs(env, res, only=None):
             elif msg != "Type mismatch":
                 only_undeclared = False
         if names and only_undeclared:
-            pre = "".join("make %s get %s\n" % (n, "true" if n == "condition" else "12") for n in names)
+            pre = "".join("make %s get %s\n" % (n, "false" if n == "condition" else "12") for n in names)
             completed.append((cid + "-completed", pre + src, None))
         else:
             doc_rejected[cid] = error_signature(rec["diags"])[:3]
@@ -1600,10 +1600,19 @@ def stream_accept(env, res, only=None):
     for i in range(m):
         src, _ = langgen.generate(r, langgen.Opts(p_trap=0.0, p_dead=0.0))
         items.append(("l%d" % i, src))
+    if only is None:
+        # the documentation's own snippets and the examples: what they show must be accepted
+        for sid, src, _ in docs_snippets():
+            if src is not None:
+                items.append(("d" + sid, src))
+        exd = os.path.join(common.REPO, "examples")
+        for fn in sorted(os.listdir(exd)):
+            if fn.endswith(".ns"):
+                items.append(("dex-" + fn[:-3], open(os.path.join(exd, fn), encoding="utf-8").read()))
     ev = accept_eval(env, "acc", items)
     st = {"cases": len(items), "simply_typed": 0, "not_simply_typed": 0, "accepted_and_typed": 0, "rejected_but_typed": 0,
           "rejected_typed_and_runs_under_spec": 0, "parse_errors": 0,
-          "typed_by_generator": {"corpus": 0, "tgen": 0, "langgen": 0}}
+          "typed_by_generator": {"corpus": 0, "tgen": 0, "langgen": 0, "docs": 0}}
     nontrivial = set()
     cand = []
     for cid, src in items:
@@ -1619,7 +1628,7 @@ def stream_accept(env, res, only=None):
             st["not_simply_typed"] += 1
             continue
         st["simply_typed"] += 1
-        st["typed_by_generator"][{"k": "corpus", "a": "tgen", "l": "langgen"}[cid[0]]] += 1
+        st["typed_by_generator"][{"k": "corpus", "a": "tgen", "l": "langgen", "d": "docs"}[cid[0]]] += 1
         if acc:
             st["accepted_and_typed"] += 1
             if "do " in src:
@@ -1683,6 +1692,11 @@ def new_result():
             "disagreements": [], "extra": {}}
 
 
+# keys moved from `failures` to extra["observations"] (behaviour the documentation is silent about and the
+# coordinator decided not to count as a defect); empty: everything the oracles flag is a failure
+OBSERVATION_KEYS = set()
+
+
 def dedupe_failures(failures):
     """one witness per key (the shortest), with the number of inputs that hit it"""
     by = {}
@@ -1712,7 +1726,9 @@ def correspond(env, searching=False, model=True):
         times[name] = round(time.time() - t0, 1)
         env.log("C01 stream %s: %.1fs, %d failures, %d disagreements so far" % (
             name, times[name], len(res["failures"]), len(res["disagreements"])))
-    res["failures"] = dedupe_failures(res["failures"])
+    allf = dedupe_failures(res["failures"])
+    res["failures"] = [f for f in allf if f["key"] not in OBSERVATION_KEYS]
+    res["extra"]["observations"] = [f for f in allf if f["key"] in OBSERVATION_KEYS]
     res["extra"]["stream_seconds"] = times
     res["disagreements"] = res["disagreements"][:40]
     return res
